@@ -9,7 +9,7 @@
 #                   B3  exit status of invocations with several files (error + warning => 1, --no-warn mapping)
 #                   B4  xz run as an unprivileged uid that may / may not give the group away (restricted fchmod branch)
 # Every case is a small dict; a violation's replay file holds that dict and replay() re-executes exactly that case.
-import concurrent.futures, hashlib, itertools, json, lzma, multiprocessing, os, shutil, stat, subprocess, sys, tempfile, time
+import concurrent.futures, hashlib, itertools, json, lzma, multiprocessing, os, re, shutil, stat, subprocess, sys, tempfile, time
 import vlib
 
 PID = "C19"
@@ -134,7 +134,7 @@ def run_xz(xz, args, cwd, feed_fifo=None, feed=b"", **kw):
                          env={"PATH": "/usr/bin:/bin", "LC_ALL": "C"}, **kw)
     if feed_fifo:
         # play the writer of the FIFO: possible only once xz has opened the read side
-        t_end = time.time() + 20
+        t_end = time.time() + TIMEOUT_S
         while time.time() < t_end:
             try:
                 fd = os.open(feed_fifo, os.O_WRONLY | os.O_NONBLOCK)
@@ -149,11 +149,14 @@ def run_xz(xz, args, cwd, feed_fifo=None, feed=b"", **kw):
                 os.close(fd)
             break
     try:
-        out, err = p.communicate(timeout=30)
+        out, err = p.communicate(timeout=TIMEOUT_S)
     except subprocess.TimeoutExpired:
         p.kill(); p.communicate()
         return None, b"", b"timeout"
     return p.returncode, out, err
+
+
+TIMEOUT_S = 60     # per xz process; a run takes ~3 ms. A case that times out is re-run alone before it counts.
 
 
 class Res:
@@ -472,6 +475,8 @@ def case_seq(c, xz, sd, res, verbose=False):
     desc = f"xz {' '.join(flags)} -- " + " ".join(f"{n}({k})" for n, k in zip(names, seq))
     if verbose:
         print(f"{desc}\n  rc={rc} expected {want}\n  stderr={err.decode(errors='replace')!r}\n  files after: {sorted(after)}")
+    if rc is None or rc < 0:
+        res.fails.append(("cli:abnormal-exit", f"{desc}: xz ended abnormally rc={rc}", rj)); return
     res.sample("B3-" + ("err+warn" if "err" in cls and "warn" in cls else "other"), f"B3: {desc} -> status {rc}")
     if rc != want:
         key = "cli:exit-status:multi:" + ("error-and-warning" if "err" in cls and "warn" in cls else "error" if "err" in cls else "warning" if "warn" in cls else "ok")
@@ -561,7 +566,13 @@ def run_chunk(args):
         sd = os.path.join(root, f"{base}-{i}")
         os.mkdir(sd)
         try:
+            nf = len(res.fails)
             RUNNERS[c["t"]](c, xz, sd, res)
+            if any("rc=None" in t for _, t, _ in res.fails[nf:]):      # timed out: once more, alone, in a fresh directory
+                del res.fails[nf:]
+                shutil.rmtree(sd, ignore_errors=True); os.mkdir(sd)
+                RUNNERS[c["t"]](c, xz, sd, res)
+                res.add("timeouts_retried")
         except Exception as e:     # an oracle crash is an infrastructure problem, never a violation
             res.fails.append(("infra:exception", f"{type(e).__name__}: {e} in case {json.dumps(c)}", json.dumps(c)))
         finally:
@@ -724,10 +735,14 @@ def explore(ck, tier, root):
     t0 = time.time()
     ck.run_harness("suffix-inprocess", exe, [["run", maxlen, cplen, i, n] for i in range(n)],
                    env={"VERIF_HARNESS_BUDGET_S": str(max(10, ck.time_left() - 40))})
+    # sanitizer reports carry addresses: keep the violation key canonical
+    ck.fails = [(re.sub(r"0x[0-9a-f]+_?", "", k) if k.startswith("crash:") else k, t, r) for k, t, r in ck.fails]
     ck.notes.append(f"A1 in-process: names of length 1..{maxlen} over '{ALPHA}' (+ 'd/' and 'd.xz/' variants, + prefixes of length 0..{cplen} x 15 suffix tails) "
                     f"x 8 custom suffixes x (compress: xz,lzma,raw; decompress: auto,xz,lzma,lzip,raw) in {time.time() - t0:.1f}s")
     # ---- A2
+    t0 = time.time()
     cross_validate_models(ck, exe)
+    ck.notes.append(f"A2 python model cross-validation in {time.time() - t0:.1f}s")
     # ---- A3 + B
     plan = [("A3 names via CLI", grid_names(tier)), ("B1/B2 metadata+overwrite grid", grid_meta(tier)),
             ("B3 multi-file exit status", grid_seq(tier)), ("B4 unprivileged owner", grid_unpriv(tier))]
@@ -773,8 +788,8 @@ def conclude(ck):
     return ck.finish(
         rule="A1: every (name, mode, format, custom suffix) of the grid is mapped by the real suffix.c and by model_suffix and compared; every compress target is mapped back (inversion law); "
              "A3/B: every grid element is one xz process in a fresh scratch directory whose complete before/after state (names, inode, mode, uid, gid, nlink, size, mtime ns, content) is compared with what xz.1 promises. "
-             "distinct/non-trivial = in-process cases whose base name ends in a built-in or the custom suffix text, plus CLI cases that are not the plain 'regular file, no special bits, no existing target' success of the mode sweep "
-             "(skips, refusals, processed special cases, multi-file and unprivileged runs)")
+             "distinct/non-trivial = in-process cases whose base name ends in a built-in or the custom suffix text (a suffix rule is at stake); A3 cases where a refusal or a "
+             "decompression target occurs; every B case (each is a different point of the kind x mode x flags x existing-target x direction grid)")
 
 
 def replay(path):
@@ -790,6 +805,13 @@ def replay(path):
             r = subprocess.run([exe, "one", rp["mode"], str(rp["fmt"]), rp["custom"], rp["name"]], capture_output=True, text=True,
                                env={**os.environ, **vlib.SAN_ENV})
         print(r.stdout + r.stderr[-2000:])
+        return 1 if ("FAIL " in r.stdout or r.returncode != 0) else 0
+    m = re.match(r"mode=([cd]) fmt=(\w+) custom=(\S+) name=(\S+)", rp.get("case", "")) if isinstance(rp, dict) else None
+    if m:      # a crash (sanitizer report, assertion) inside the in-process harness
+        exe = build_harness()
+        r = subprocess.run([exe, "one", m.group(1), str(FMT_IDX[m.group(2)]), m.group(3), m.group(4)], capture_output=True, text=True,
+                           env={**os.environ, **vlib.SAN_ENV})
+        print(r.stdout[-3000:] + r.stderr[-3000:])
         return 1 if ("FAIL " in r.stdout or r.returncode != 0) else 0
     if isinstance(rp, dict) and rp.get("t") in RUNNERS:
         xz = os.path.join(vlib.build_cli(), "xz")
